@@ -7,7 +7,7 @@ if [ -n "$(git -C /repo status --porcelain)" ]; then echo "/repo is not clean"; 
 IDS="$@"; [ -z "$IDS" ] && IDS=$(ls seeded | grep -E '^C[0-9]+-[0-9]+$' | sort)
 for id in $IDS; do
   prop=${id%%-*}
-  if ! git -C /repo apply seeded/$id/patch.diff; then echo "$id APPLY-FAILED"; echo "{\"id\":\"$id\",\"applies\":false}" > seeded/$id/result.json; continue; fi
+  if ! git -C /repo apply /verif/seeded/$id/patch.diff; then echo "$id APPLY-FAILED"; echo "{\"id\":\"$id\",\"applies\":false}" > seeded/$id/result.json; continue; fi
   tests=$( (cd /repo && cargo test --workspace --no-fail-fast --offline 2>&1) | grep -E "^test result" | awk '{p+=$4; f+=$6} END {print p "/" f}')
   verdict="missed"; seeds=""; line=""
   for seed in 1 2 3; do
